@@ -325,6 +325,32 @@ def A4_same_frame(repo, clause):
     ts, tr = ts[0], tr[0]
     a_s, a_r = expand(fn, ts.args[0]), expand(fn, tr.args[0])
     eq = nf(a_s) == nf(a_r)
+    # one snapshot local handed to both calls (`origin = search.positions[0].copy()`): expand() rightly refuses to look through it at the second call (the search pattern has been
+    # moved in between), but the two arguments are the same VALUE when they are the same expression over locals with the same single definition
+    def _snapshot_defs(arg):
+        out = {}
+        for x in ast.walk(arg):
+            if isinstance(x, ast.Name) and isinstance(x.ctx, ast.Load) and x.id not in ("np", "numpy"):
+                uv = fn.rd.unique_value(x)
+                if uv is None:
+                    return None
+                out[x.id] = uv
+        return out
+    if not eq and nf(ts.args[0]) == nf(tr.args[0]):
+        d1, d2 = _snapshot_defs(ts.args[0]), _snapshot_defs(tr.args[0])
+        if d1 is not None and d2 is not None and d1.keys() == d2.keys() and all(d1[k_][0] is d2[k_][0] for k_ in d1):
+            fresh = all(isinstance(v_[1], (ast.BinOp, ast.UnaryOp)) or (isinstance(v_[1], ast.Call) and call_name(v_[1]) in ("array", "copy", "negative")) for v_ in d1.values())
+            if fresh:
+                eq = True
+                # judge the shape of the shift on the snapshot's own definition
+                sub = {k_: v_[1] for k_, v_ in d1.items()}
+
+                class _S(ast.NodeTransformer):
+                    def visit_Name(self, node):
+                        return sub.get(node.id, node) if isinstance(node.ctx, ast.Load) else node
+                import copy as _copy
+                a_s = _S().visit(_copy.deepcopy(ts.args[0]))
+                a_r = a_s
     obs.append(Ob("A4", clause, fn, tr, eq,
                   "shift of replacement = %s, shift of search pattern = %s: %s"
                   % (ast.unparse(a_r), ast.unparse(a_s), "equal" if eq else "DIFFERENT vectors"), slot="equal-shift"))
@@ -336,6 +362,8 @@ def A4_same_frame(repo, clause):
     # use-before-kill: the read of search.positions for the replacement's shift must not see the shifted search pattern
     def read_point(call):
         a = call.args[0]
+        while isinstance(a, ast.UnaryOp) and isinstance(a.op, ast.USub) and isinstance(a.operand, ast.Name):
+            a = a.operand       # `-origin`: the vector was read where `origin` was computed
         if isinstance(a, ast.Name):
             uv = fn.rd.unique_value(a)
             if uv is not None:
@@ -394,6 +422,11 @@ def _origin_index(shift, search):
         e = e.args[0]
     else:
         return None
+    # a snapshot of the row: x.copy(), np.array(x), np.copy(x)
+    while isinstance(e, ast.Call) and ((call_name(e) == "copy" and isinstance(e.func, ast.Attribute) and not e.args and not isinstance(e.func.value, ast.Name))
+                                       or (call_name(e) in ("array", "copy", "asarray") and len(e.args) == 1 and isinstance(e.func, ast.Attribute)
+                                           and isinstance(e.func.value, ast.Name) and e.func.value.id in ("np", "numpy"))):
+        e = e.func.value if (call_name(e) == "copy" and not e.args) else e.args[0]
     if isinstance(e, ast.Subscript) and isinstance(e.value, ast.Attribute) and e.value.attr == "positions" \
             and isinstance(e.value.value, ast.Name) and e.value.value.id == search:
         return const_value(e.slice)
@@ -1194,6 +1227,15 @@ def A22_no_module_state(repo, clause, modules=("mofun.atoms", "mofun.helpers", "
                     for x in ast.walk(t):
                         if isinstance(x, ast.Name):
                             module_names.add(x.id)
+        # tables imported from other modules of the package (`from mofun.atomic_masses import ATOMIC_MASSES`) are module-level state just the same
+        for local_, (src_mod, attr_) in m.imports.items():
+            if attr_ is not None and src_mod and src_mod.split(".")[0] == "mofun" and src_mod in repo.modules:
+                sm = repo.modules[src_mod]
+                is_def = any(isinstance(st, (ast.FunctionDef, ast.ClassDef, ast.AsyncFunctionDef)) and st.name == attr_ for st in sm.tree.body)
+                # an assignment there, or a name re-exported from a third module of the package (atoms <- helpers <- atomic_masses)
+                if not is_def and (sm.top_assign(attr_) is not None or (attr_ in sm.imports and (sm.imports[attr_][0] or "").split(".")[0] == "mofun") or
+                                   any((x or "").split(".")[0] == "mofun" for x in sm.star_imports)):
+                    module_names.add(local_)
         bad = []
         for (mm, q), fn in repo.fns.items():
             if mm != mname:
@@ -1225,4 +1267,58 @@ def A22_no_module_state(repo, clause, modules=("mofun.atoms", "mofun.helpers", "
                       "no function of %s writes module-level state%s" % (mname, "" if not bad else
                                                                          ": %s writes `%s` (results then depend on earlier calls)" % (bad[0][0].qualname, bad[0][2])),
                       construct="module %s" % mname if not bad else None, slot="module-state:%s" % mname, positive="robust"))
+    return obs
+
+
+def A6r_every_return_through_groups(repo, clause):
+    """Uniqueness and the rotation re-check live in the per-group loop over `group_duplicates(<candidates>)`.  Every return of the search that hands back
+    matches must build them from the lists filled inside that loop; a return whose value derives from the raw candidate list bypasses both (for a pattern
+    of two atoms of one element every pair is grown twice - once from either start atom - so the same occurrence is reported twice).  Only a pattern of
+    at most ONE atom has nothing to merge."""
+    fn = repo.fn("find_pattern_in_structure")
+    gcall = None
+    for c in calls_in(fn):
+        if call_name(c) == "group_duplicates" and c.args:
+            gcall = c
+    if gcall is None:
+        return [Ob("A6r", clause, fn, fn.node, False, "the grouping of candidates by atom set (group_duplicates) was not found: cannot tell which lists are de-duplicated",
+                   construct="group_duplicates(<candidates>, key=...)", slot="grouping", undecided=True)]
+    cand = gcall.args[0]
+    if not isinstance(cand, ast.Name):
+        return [Ob("A6r", clause, fn, gcall, False, "candidate argument of group_duplicates is not a plain local", slot="grouping", undecided=True)]
+    cand = cand.id
+    gstmt = fn.stmt_of(gcall)
+    obs = [Ob("A6r", clause, fn, gcall, True, "candidates `%s` are grouped by atom set before anything is reported" % cand, slot="grouping")]
+    nret = 0
+    for r in fn.own_nodes():
+        if not isinstance(r, ast.Return) or r.value is None:
+            continue
+        nret += 1
+        try:
+            e = expand(fn, r.value, stop_names=[cand])
+        except Exception:
+            e = r.value
+        raw = any(isinstance(x, ast.Name) and x.id == cand and isinstance(x.ctx, ast.Load) for x in ast.walk(e))
+        if not raw:
+            obs.append(Ob("A6r", clause, fn, r, True, "return value does not read the raw candidate list `%s`" % cand, slot="return#%d" % nret))
+            continue
+        # permitted only for patterns of at most one atom
+        small = None
+        for t, pol, k in norm_guards(fn, r):
+            if isinstance(t, ast.Compare) and len(t.ops) == 1 and isinstance(t.left, ast.Call) and call_name(t.left) == "len" and isinstance(const_value(t.comparators[0]), int):
+                k_, op_ = const_value(t.comparators[0]), type(t.ops[0])
+                if pol and op_ in (ast.LtE, ast.Lt, ast.Eq):
+                    small = k_ if op_ in (ast.LtE, ast.Eq) else k_ - 1
+                if not pol and op_ in (ast.Gt, ast.GtE):
+                    small = k_ if op_ is ast.Gt else k_ - 1
+            for bt in (t.values if isinstance(t, ast.BoolOp) and isinstance(t.op, ast.And) and pol else []):
+                if isinstance(bt, ast.Compare) and len(bt.ops) == 1 and isinstance(bt.left, ast.Call) and call_name(bt.left) == "len" and isinstance(const_value(bt.comparators[0]), int):
+                    k_, op_ = const_value(bt.comparators[0]), type(bt.ops[0])
+                    if op_ in (ast.LtE, ast.Lt, ast.Eq):
+                        small = k_ if op_ in (ast.LtE, ast.Eq) else k_ - 1
+        ok = small is not None and small <= 1
+        obs.append(Ob("A6r", clause, fn, r, ok,
+                      "this return builds its result from the RAW candidate list `%s`%s: the grouping by atom set / rotation re-check is bypassed, so an occurrence that was grown from "
+                      "several start atoms (two atoms of one element: once from either end) is reported more than once"
+                      % (cand, "" if small is None else " for patterns of up to %d atoms" % small), slot="return-bypasses-grouping", positive="robust"))
     return obs
